@@ -399,7 +399,7 @@ def load():
 
 
 def plan(tier, seed, scale=1.0):
-    n = int((50 if tier == "quick" else 1200) * scale)
+    n = int((50 if tier == "quick" else 900) * scale)
     return [{"n": n, "timeout": 3000} for _ in range(16)]
 
 
